@@ -199,6 +199,18 @@ func (x *Exec) respHeaderMap(st *State, recv Value) MapV {
 			}
 		}
 	}
+	// a statically known *HTTPResponder: its header set is the wrapped writer's
+	if p, ok := dyn.(PtrV); ok && p.LV == nil {
+		if n, ok := types.Unalias(x.resolveType(p.Elem)).(*types.Named); ok && n.Obj().Name() == "HTTPResponder" {
+			if w := x.specFieldOf(st, p, "writer"); w != nil {
+				id := App("rwheader", SInt, x.asTermAny(w))
+				st.assumeRaw(Gt(id, IntLit(1<<50)))
+				hp := x.L.pkgOf("net/http")
+				mt := hp.Types.Scope().Lookup("Header").Type().Underlying().(*types.Map)
+				return MapV{ID: id, Type: mt}
+			}
+		}
+	}
 	id := App("resphdr", SInt, x.asTermAny(recv))
 	st.assumeRaw(Gt(id, IntLit(1<<50)))
 	hp := x.L.pkgOf("net/http")
